@@ -427,6 +427,27 @@ def run(ctx):
                             else:
                                 ctx.ok("R15.5", fp, construct, "; ".join(show(t0) for _, t0 in verdicts)[:200], (fp, e.get("ln")))
             ctx.need("R15.5", "no-break paths in the word loop", nb, 2)
+    # ---- R15.11: producing the text changes nothing: no data member of the parser, a group or an option is written on the usage path
+    # (a cached line, a "dirty" flag, a sorted copy kept for next time make the text depend on earlier calls)
+    ctx.rule("R15.11", "no data member of parser / group / option classes is written by a function reachable from usage(): the text is the same whenever and however often it is produced")
+    from .common import std_lookup
+    uw = []
+    ureach = cg.reachable([usage.id])
+    for fid in sorted(ureach):
+        g = prog.fn(fid)
+        if g is None or not g.has_cfg or not (g.cls or "").startswith(NS) or g.kind in ("ctor", "dtor"):
+            continue
+        for (w, base, n2, b2, i2, how) in cg.field_writes(g):
+            if base == "this" and w.startswith(NS) and how == "write":
+                # the non-const overload of a standard element accessor hands out a position and changes nothing by itself
+                if std_lookup(n2):
+                    continue
+                uw.append((g, w, n2))
+    for g, w, n2 in uw:
+        ctx.bad("R15.11", g, "usage-writes-nothing:%s" % short(w), "%s writes %s (`%s`) while the usage text is produced: a later call sees what this one left behind"
+                % (short(g.qual), short(w), fmt(n2)[:60] if isinstance(n2, dict) else ""), (g, n2.get("ln") if isinstance(n2, dict) else None))
+    if not uw:
+        ctx.ok("R15.11", usage, "usage-writes-nothing", "no member of the option classes is written on the usage path", usage)
     # ---- R15.10: usage() returns its stream: no standard-library precondition failure (erase / substr / at beyond the end) can throw
     # out of it for some declaration (an empty default list, an empty description, a one-letter name)
     ctx.rule("R15.10", "every std thrower (substr / erase / at / compare ...) reachable from usage() is discharged by the facts of its calling contexts: the text is produced for every declaration")
